@@ -37,6 +37,14 @@ func (ex *Exec) parseFrame(st *State, c *Contract, env *Env) (*frameDecl, error)
 				fd.whole["g|"+x.Name] = true
 				continue
 			}
+			// a package-level variable of the function's package, as a whole
+			_, isParam := env.fr.params[x.Name]
+			if env.pkg != nil && !isParam {
+				if o, ok := env.pkg.Scope().Lookup(x.Name).(*types.Var); ok && o != nil {
+					fd.whole["V|"+o.Pkg().Path()+"."+o.Name()] = true
+					continue
+				}
+			}
 			v, err := ex.evalSpec(e, env)
 			if err != nil {
 				return nil, err
@@ -126,13 +134,13 @@ func (fd *frameDecl) addPointee(v Val) error {
 // frameGoal is the frame condition of one heap array against the entry state.
 func (ex *Exec) frameGoal(st *State, fd *frameDecl, name string, cur Term) (Term, bool) {
 	old := st.heapAt(ex.entry, name, cur.Sort)
-	if cur.S == old.S || fd.whole[name] {
+	if cur.S == old.S || fd.whole[name] || strings.HasPrefix(name, "g|$site") {
 		return Term{}, false
 	}
 	if !strings.HasPrefix(cur.Sort, "(Array Int ") {
 		return Eq(cur, old), true
 	}
-	cond := "(and (< x alloc0) (> x 0)"
+	cond := "(and (< x alloc0) (> x 0) (isold x)"
 	for _, b := range fd.bases[name] {
 		cond += fmt.Sprintf(" (not (= x %s))", b.S)
 	}
@@ -165,7 +173,7 @@ func (ex *Exec) loopFrame(st *State, fr *Frame, n int, class string, check bool)
 			continue
 		}
 		if check {
-			ex.check(st, fr, class, fmt.Sprintf("loop%d.frame.%s", n, frameLabel(name)), g, []string{"C20"}, "implicit loop invariant: frame of "+name, "")
+			ex.check(st, fr, class, fmt.Sprintf("loop%d.frame.%s", n, frameLabel(name)), g, ex.frameProps(), "implicit loop invariant: frame of "+name, "")
 		} else {
 			st.assume(g)
 		}
@@ -186,7 +194,8 @@ func (ex *Exec) frameChecks(st *State, fr *Frame, fd *frameDecl, src string) {
 	for _, name := range names {
 		cur := st.heaps[name]
 		old := st.heapAt(ex.entry, name, cur.Sort)
-		if cur.S == old.S || fd.whole[name] {
+		if cur.S == old.S || fd.whole[name] || strings.HasPrefix(name, "g|$site") {
+			// (call-site ghosts of the function itself are not caller-visible state)
 			continue
 		}
 		if strings.HasPrefix(name, "V|") && ex.isTestOnlyGlobal(name) {
@@ -196,20 +205,20 @@ func (ex *Exec) frameChecks(st *State, fr *Frame, fd *frameDecl, src string) {
 		label = strings.ReplaceAll(label, "filippo.io/age", "age")
 		if !strings.HasPrefix(cur.Sort, "(Array Int ") {
 			// scalar cell (ghost global / package variable)
-			ex.check(st, fr, "frame", label, Eq(cur, old), []string{"C20"}, "frame: "+name+" is not in the modifies clause", src)
+			ex.check(st, fr, "frame", label, Eq(cur, old), ex.frameProps(), "frame: "+name+" is not in the modifies clause", src)
 			continue
 		}
 		var ex2 []string
 		for _, b := range fd.bases[name] {
 			ex2 = append(ex2, fmt.Sprintf("(not (= x %s))", b.S))
 		}
-		cond := "(and (< x alloc0) (> x 0)"
+		cond := "(and (< x alloc0) (> x 0) (isold x)"
 		for _, e := range ex2 {
 			cond += " " + e
 		}
 		cond += ")"
 		goal := fmt.Sprintf("(forall ((x Int)) (! (=> %s (= (select %s x) (select %s x))) :pattern ((select %s x))))", cond, cur.S, old.S, cur.S)
-		ex.check(st, fr, "frame", label, mkTerm(goal, SortBool), []string{"C20"}, "frame: objects that existed at entry and are not named by the modifies clause keep their "+name, src)
+		ex.check(st, fr, "frame", label, mkTerm(goal, SortBool), ex.frameProps(), "frame: objects that existed at entry and are not named by the modifies clause keep their "+name, src)
 	}
 }
 
@@ -224,11 +233,37 @@ func (ex *Exec) writeCheck(st *State, fr *Frame, heap string, id Term, cond Term
 	if fd == nil || fd.all || fd.whole[heap] {
 		return
 	}
-	ok := []Term{Ge(id, mkTerm("alloc0", SortInt))}
+	// allocated in this call: at or above the entry allocation counter, or known
+	// not to have existed at entry (`fresh` facts; never assumed of entry objects)
+	ok := []Term{Ge(id, mkTerm("alloc0", SortInt)), Not(mkTerm("(isold "+id.S+")", SortBool))}
 	for _, b := range fd.bases[heap] {
 		ok = append(ok, Eq(id, b))
 	}
 	goal := Implies(cond, Or(ok...))
 	ex.wcount++
-	ex.check(st, fr, "frame", fmt.Sprintf("write.%s.%d", frameLabel(heap), ex.wcount), goal, []string{"C20"}, "write to "+heap+" ("+what+") targets memory allocated in this call or named by the modifies clause", src)
+	ex.check(st, fr, "frame", fmt.Sprintf("write.%s.%d", frameLabel(heap), ex.wcount), goal, ex.frameProps(), "write to "+heap+" ("+what+") targets memory allocated in this call or named by the modifies clause", src)
+}
+
+// frameProps: a frame obligation serves every property the contract serves
+// (callers rely on the frame whatever they are proving), and C20.
+func (ex *Exec) frameProps() []string {
+	m := map[string]bool{"C20": true}
+	if ex.topC != nil {
+		for p := range ex.topC.Props {
+			m[p] = true
+		}
+	}
+	return sortedKeys(m)
+}
+
+// lazyLoopFrame: the frame assumption for a heap that is first touched after a
+// loop-head havoc (see State.heap).
+func (ex *Exec) lazyLoopFrame(st *State, name string, cur Term) {
+	fd := ex.topFrame
+	if fd == nil || fd.all || ex.entry == nil {
+		return
+	}
+	if g, ok := ex.frameGoal(st, fd, name, cur); ok {
+		st.assume(g)
+	}
 }
